@@ -121,6 +121,37 @@ T("C16", "twin-headers-helper-loop", F, "", "", edits=[
 ])
 T("C16", "twin-body-bytes-copy", F, REQ_RET, '    return HttpRequest(method=method, body=bytes(body), headers=headers, uri=uri, params=params)\n')
 
+# partition spelled as find + slicing (lemma of `_mk_slice_terms`): index falls back to the length under `< 0`, separator
+# length taken with len() of a local constant
+T("C16", "twin-find-slicing-head-body", F, SPLIT,
+  '    sep = b"\\r\\n\\r\\n"\n    cut = data.find(sep)\n    if cut < 0:\n        cut = len(data)\n    header_data = data[:cut]\n    body = data[cut + len(sep):]\n'
+  '    first_line, _, header_data = header_data.partition(b"\\r\\n")\n')
+# the same with a conditional expression for the fallback, mirrored addition, both parts assigned in one statement
+T("C16", "twin-find-slicing-ifexp-start-line", F, '    first_line, _, header_data = header_data.partition(b"\\r\\n")\n',
+  '    eol = header_data.find(b"\\r\\n")\n    eol = len(header_data) if -1 == eol else eol\n    first_line, header_data = header_data[:eol], header_data[2 + eol:]\n')
+# presence test with `in`, index() in the found branch, the not-found values written out in the other branch
+T("C16", "twin-in-index-branches", F, '    header_data, _, body = data.partition(b"\\r\\n\\r\\n")\n',
+  '    if b"\\r\\n\\r\\n" in data:\n        cut = data.index(b"\\r\\n\\r\\n")\n        header_data, body = data[:cut], data[cut + 4:]\n    else:\n        header_data, body = data, b""\n')
+# header lines: found / not-found branches selected by `find(..) >= 0`
+T("C16", "twin-header-find-branches", F, '        key, _, value = header.partition(b": ")\n',
+  '        at = header.find(b": ")\n        if at >= 0:\n            key, value = header[:at], header[at + 2:]\n        else:\n            key, value = header, b""\n')
+# partition spelled as split(sep, 1): first piece unconditionally, second piece only when there are two
+T("C16", "twin-split-once-ifexp", F, '    header_data, _, body = data.partition(b"\\r\\n\\r\\n")\n',
+  '    pieces = data.split(b"\\r\\n\\r\\n", 1)\n    header_data = pieces[0]\n    body = pieces[1] if len(pieces) > 1 else b""\n')
+T("C16", "twin-split-once-default-then-override", F, '    header_data, _, body = data.partition(b"\\r\\n\\r\\n")\n',
+  '    pieces = data.split(b"\\r\\n\\r\\n", maxsplit=1)\n    header_data = pieces[0]\n    body = b""\n    if len(pieces) == 2:\n        body = pieces[-1]\n')
+# the tail taken in two slicing steps
+T("C16", "twin-find-slicing-two-steps", F, '    header_data, _, body = data.partition(b"\\r\\n\\r\\n")\n',
+  '    cut = data.find(b"\\r\\n\\r\\n")\n    if cut == -1:\n        cut = len(data)\n    header_data = data[:cut]\n    tail = data[cut:]\n    body = tail[4:]\n')
+# negated slice form of the prefix test with the branches exchanged (other spelling than twin-request-first)
+T("C16", "twin-prefix-ne-request-first", F, "", "", edits=[
+    (F, RESP, '    if b"HTTP/" != first_line.upper()[:len(b"HTTP/")]:\n'),
+    (F, REQ_HEAD, _ind(REQ_HEAD)),
+    (F, URI, _ind(URI)),
+    (F, QUERY, _ind(QUERY)),
+    (F, REQ_RET, _ind(REQ_RET) + RESP.replace('    if first_line.upper().startswith(b"HTTP/"):\n', "").replace("\n        ", "\n    ").replace("        parts", "    parts", 1)),
+])
+
 # ---------------------------------------------------------------------------------------------------------- mutants
 # R1
 M("C16", "data-stripped-first", F, SPLIT, '    data = data.lstrip()\n' + SPLIT, "C16.R1")
@@ -189,3 +220,28 @@ M("C16", "qsl-encoding-positional-utf8", F, 'parse_qsl(result.query.decode("asci
 # R8
 M("C16", "memoised-parser-cache", F, "", "", "C16.R8",
   edits=[(F, "import base64\n", "import base64\nimport functools\n"), (F, "def parse_raw_http(data: bytes)", "@functools.cache\ndef parse_raw_http(data: bytes)")])
+# find + slicing shapes that are NOT the partition (R1/R5) and the `!=` prefix test on unexchanged branches (R4)
+M("C16", "find-slicing-no-fallback", F, '    header_data, _, body = data.partition(b"\\r\\n\\r\\n")\n',
+  '    cut = data.find(b"\\r\\n\\r\\n")\n    header_data, body = data[:cut], data[cut + 4:]\n', "C16.R1")
+M("C16", "find-slicing-short-offset", F, '    header_data, _, body = data.partition(b"\\r\\n\\r\\n")\n',
+  '    cut = data.find(b"\\r\\n\\r\\n")\n    if cut == -1:\n        cut = len(data)\n    header_data, body = data[:cut], data[cut + 2:]\n', "C16.R1")
+M("C16", "rfind-slicing-last-blank-line", F, '    header_data, _, body = data.partition(b"\\r\\n\\r\\n")\n',
+  '    cut = data.rfind(b"\\r\\n\\r\\n")\n    if cut == -1:\n        cut = len(data)\n    header_data, body = data[:cut], data[cut + 4:]\n', "C16.R1")
+M("C16", "header-find-colon-only", F, '        key, _, value = header.partition(b": ")\n',
+  '        at = header.find(b":")\n        if at == -1:\n            at = len(header)\n        key, value = header[:at], header[at + 2:]\n', "C16.R5")
+M("C16", "header-find-value-keeps-space", F, '        key, _, value = header.partition(b": ")\n',
+  '        at = header.find(b": ")\n        if at == -1:\n            at = len(header)\n        key, value = header[:at], header[at + 1:]\n', "C16.R5")
+M("C16", "prefix-ne-branches-not-exchanged", F, '    if first_line.upper().startswith(b"HTTP/"):', '    if first_line[:5].upper() != b"HTTP/":', "C16.R4")
+M("C16", "split-once-second-piece-never-taken", F, '    header_data, _, body = data.partition(b"\\r\\n\\r\\n")\n',
+  '    pieces = data.split(b"\\r\\n\\r\\n", 1)\n    header_data = pieces[0]\n    body = pieces[1] if len(pieces) > 2 else b""\n', "C16.R1")
+M("C16", "split-once-second-piece-unguarded", F, '    header_data, _, body = data.partition(b"\\r\\n\\r\\n")\n',
+  '    pieces = data.split(b"\\r\\n\\r\\n", 1)\n    header_data = pieces[0]\n    body = pieces[1]\n', "C16.R2")
+M("C16", "split-unbounded-last-piece", F, '    header_data, _, body = data.partition(b"\\r\\n\\r\\n")\n',
+  '    pieces = data.split(b"\\r\\n\\r\\n")\n    header_data = pieces[0]\n    body = pieces[-1] if len(pieces) > 1 else b""\n', "C16.R1")
+T("C16", "twin-prefix-not-in-singleton", F, "", "", edits=[
+    (F, RESP, '    if first_line[:5].lower() not in (b"http/",):\n'),
+    (F, REQ_HEAD, _ind(REQ_HEAD)),
+    (F, URI, _ind(URI)),
+    (F, QUERY, _ind(QUERY)),
+    (F, REQ_RET, _ind(REQ_RET) + RESP.replace('    if first_line.upper().startswith(b"HTTP/"):\n', "").replace("\n        ", "\n    ").replace("        parts", "    parts", 1)),
+])
